@@ -540,8 +540,15 @@ impl<T: Copy + Debug> Container<T> {
             // * index is already released and could be acquired by `Self::add()`
             // * `Self::add()` increments counter to % 2 == 1 when finished populating data
             // * when this comes after without case, the element is set to empty
-            let _dont_care = unsafe { &*self.element_generation_counter_ptr.as_ptr().add(index) }
-                .compare_exchange(v, v + 1, Ordering::Relaxed, Ordering::Relaxed);
+            //
+            // An owner that died inside `Self::add()` before it published its element left
+            // an even (empty) counter behind; incrementing it would mark the released slot as
+            // populated and every `Self::update_state()` would report a ghost element.
+            if Self::contains_data(v) {
+                let _dont_care =
+                    unsafe { &*self.element_generation_counter_ptr.as_ptr().add(index) }
+                        .compare_exchange(v, v + 1, Ordering::Relaxed, Ordering::Relaxed);
+            }
         };
 
         let result = unsafe { self.index_set.recover(mode, p, on_success) };
